@@ -266,16 +266,19 @@ fn hayson_doc(depth: u32) -> BoxedStrategy<Vec<u8>> {
 }
 
 /// literals made of escape sequences: \\uXXXX with surrogate / boundary code units, short escapes, broken ones
-fn escape_soup() -> BoxedStrategy<Vec<u8>> {
+pub fn escape_body() -> BoxedStrategy<String> {
     let unit = prop_oneof![
         4 => (prop::sample::select(vec!["d800", "d83d", "dbff", "dc00", "de00", "dfff", "0000", "ffff", "fffe", "0041", "00e9", "d7ff", "e000", "D83D", "DC00", "00B0"])).prop_map(|h| format!("\\u{h}")),
         2 => "[0-9a-fA-F]{4}".prop_map(|h| format!("\\u{h}")),
         1 => "[0-9a-fA-Fg-z]{0,3}".prop_map(|h| format!("\\u{h}")),
         2 => prop::sample::select(vec!["\\n", "\\t", "\\\\", "\\\"", "\\$", "\\b", "\\f", "\\`", "\\'", "\\x", "\\", "a", "é", "\u{10000}"]).prop_map(String::from),
     ];
-    (prop::collection::vec(unit, 0..8), 0u8..6)
-        .prop_map(|(units, wrap)| {
-            let body: String = units.concat();
+    prop::collection::vec(unit, 0..8).prop_map(|units| units.concat()).boxed()
+}
+
+fn escape_soup() -> BoxedStrategy<Vec<u8>> {
+    (escape_body(), 0u8..6)
+        .prop_map(|(body, wrap)| {
             match wrap {
                 0 => format!("\"{body}\""),
                 1 => format!("`{body}`"),
